@@ -86,6 +86,15 @@ def strategy(tier):
                 for s in model["states"]:
                     if a["name"] == X.deriv_name(s["name"]):
                         a["expr"] = sanitize(a["expr"], s["name"])
+        if draw(st.integers(0, 5)) == 0:
+            # the own state in the DIVISOR of a Mod: d Mod(a, b)/dx = a' - b' floor(a/b)
+            s = draw(st.sampled_from(model["states"]))["name"]
+            others = [n for n in X.state_names(model) + X.param_names(model) if n != s]
+            A = draw(st.sampled_from([["num", "7.5"], ["num", "20"]] + [["bin", "+", ["call", "abs", ["var", o]], ["num", "5"]] for o in others[:3]]))
+            B_ = draw(st.sampled_from([["var", s], ["bin", "+", ["call", "abs", ["var", s]], ["num", "0.5"]], ["bin", "+", ["bin", "*", ["var", s], ["var", s]], ["num", "1"]]]))
+            for a in model["assigns"]:
+                if a["name"] == X.deriv_name(s):
+                    a["expr"] = ["bin", "-", a["expr"], ["bin", "*", ["num", "0.25"], ["call", "Mod", A, B_]]]
         need = [X.deriv_name(s["name"]) for s in model["states"]]
         pts = G.draw_points(draw, model, 3, need)
         # delta relative to the reference g at the first point
